@@ -1,10 +1,95 @@
 """C05 — listings only advertise what the server will serve (link closure)."""
-from common import Check
+import html
+import re
+
+from common import Check, impl_run_parallel
 import gen
 import pgsite
 import trees
 import validators as V
 from k05 import run_k05   # [agentH] K05: Model/Request.v against the real protocol classes
+
+
+def u8(s):
+    """str -> the latin-1 transport form of its UTF-8 bytes"""
+    return s.encode("utf-8").decode("latin-1")
+
+
+# valid UTF-8 names that a careless "clean-up" of a menu line would alter: format and invisible characters, bidi
+# controls, combining marks and the two normal forms of one letter, variation selectors, astral characters,
+# C0/C1 controls that are not TAB/CR/LF.  (No blank at either end: the Gopher syntax cannot express that.)
+UNICODE_NAMES = [
+    "zw\u200cnj.txt", "zw\u200dj.txt", "soft\u00adhyphen.txt", "lrm\u200emark.txt", "rlm\u200fmark.txt", "bom\ufeffinside.txt",
+    "\ufeffleading-bom.txt", "rlo\u202eevil.txt", "lre\u202a\u202cpdf.txt", "iso\u2066\u2069late.txt", "wj\u2060oiner.txt",
+    "cafe\u0301-nfd.txt", "caf\u00e9-nfc.txt", "a\u030a\u0323stack.txt", "\u0301leading-combining.txt", "heart\u2764\ufe0f.txt",
+    "text\u2764\ufe0estyle.txt", "family\U0001f468\u200d\U0001f469\u200d\U0001f467.txt", "flag\U0001f1e9\U0001f1ea.txt",
+    "astral\U0001d54f\U00010348.txt", "tag\U000e0041\U000e007f.txt", "ls\u2028ps\u2029.txt", "nbsp\u00a0in.txt", "nel\u0085in.txt",
+    "c0\x01\x1bctl.txt", "del\x7fchar.txt", "c1\u009b\u0090ctl.txt", "ideo\u3000space.txt", "hangul\u1100\u1161\u11a8.txt",
+    "\u212bngstrom-\u00c5.txt", "fi\ufb01ligature.txt", "arabic\u0644\u0627\u200c\u0644.txt", "\u0e01\u0e33thai.txt",
+    "noncharacter\ufffe\uffff.txt", "pua\ue000\U000f0000.txt", "fullwidth\uff0fslash.txt", "kelvin\u212a.txt",
+]
+
+
+def unicode_tree():
+    t = [{"path": "uni", "kind": "dir"}]
+    for nm in UNICODE_NAMES:
+        t.append({"path": u8("uni/" + nm), "data": u8("content of " + nm + "\n")})
+    # the same characters in directory names, and in names reached through a gophermap and a link file
+    t.append({"path": u8("uni/d\u200di\u00adr\u202e"), "kind": "dir"})
+    t.append({"path": u8("uni/d\u200di\u00adr\u202e/in\ufeffner\u0301.txt"), "data": "inner\n"})
+    t.append({"path": "uni/gm", "kind": "dir"})
+    t.append({"path": u8("uni/gm/z\u200bw.txt"), "data": "zero width space\n"})
+    t.append({"path": "uni/gm/gophermap", "data": u8("0relative\tz\u200bw.txt\n0absolute\t/uni/gm/z\u200bw.txt\n"
+                                                     "0named \u202egnp.exe\t/uni/rlo\u202eevil.txt\n1up\t/uni\n")})
+    t.append({"path": "uni/lk", "kind": "dir"})
+    t.append({"path": u8("uni/lk/t\u2060x.txt"), "data": "word joiner\n"})
+    t.append({"path": "uni/lk/.Links", "data": u8("Name=joined\nType=0\nPath=./t\u2060x.txt\n\n"
+                                                  "Name=abs\nType=0\nPath=/uni/lk/t\u2060x.txt\nHost=+\nPort=+\n")})
+    return t
+
+
+# URL: items are local links of type h: the client sends the selector back and gets the redirect page
+URL_SELECTORS = ["URL:http://www.example.com/", "URL:http://www.example.com/a//b", "/URL:http://www.example.com/x",
+                 "URL:https://example.org/p?q=1&r=2#frag", "URL:ftp://ftp.example.org//pub//file.txt", "/URL:gopher://other.example/1/dir",
+                 "URL:http://[2001:db8::1]:8080/", "URL:http://www.example.com/a%20b/c%2F%2Fd",
+                 "URL:http://www.example.com/trailing/", "URL:http://www.example.com/caf\u00e9"]
+
+
+def url_tree():
+    gm = ["ilinks to the web"]
+    lk = []
+    for i, s in enumerate(URL_SELECTORS):
+        gm.append("hweb %d\t%s" % (i, s))
+        lk.append("Name=link %d\nType=h\nPath=%s\nNumb=%d\n" % (i, s, i + 1))
+    return [{"path": "web", "kind": "dir"}, {"path": "web/gophermap", "data": u8("\n".join(gm) + "\n")},
+            {"path": "weblinks", "kind": "dir"}, {"path": "weblinks/plain.txt", "data": "x\n"},
+            {"path": "weblinks/.Links", "data": u8("\n".join(lk))}]
+
+
+def judge_page(p):
+    """why a followed link is not what the listing advertised (None when it is)"""
+    proto = p["proto"]
+    out = p["out"].encode("latin-1")
+    why = None
+    try:
+        v = V.validate(proto, out)
+        if v["kind"] != "success":
+            why = "answered with an error reply"
+        elif p["type"] == "1":
+            try:
+                V.parse_gopher_menu(v["body"])
+            except V.Malformed as e:
+                why = "advertised as a menu but the reply is not a menu: %s" % e
+        elif re.match(r"/?URL:", p["selector"]):
+            url = re.match(r"/?URL:(.*)$", p["selector"], re.S).group(1)
+            url = url.rstrip("/")     # the selector loses one trailing slash on the way (slashnormalize); the page must still lead there
+            if html.escape(url).encode("latin-1") not in v["body"] and url.encode("latin-1") not in v["body"]:
+                why = "the reply to a URL: link does not lead to %r" % url
+    except V.Malformed as e:
+        why = "malformed reply: %s" % e
+    if p["exc"]:
+        why = "exception %s" % p["exc"]
+    return why
 
 
 def run(tier):
@@ -15,34 +100,27 @@ def run(tier):
     ntrees = 10 if tier == "thorough" else 3
     specs = []
     for i in range(ntrees):
-        specs.append({"tree": trees.rich_tree(rng, hostile=True, part=(i % 3, 3)), "config": trees.SITE_CONFIG})
-    all_pages = pgsite.crawl_worlds(specs)
+        tr = trees.rich_tree(rng, hostile=True, part=(i % 3, 3))
+        if i % 3 == 0:
+            tr = tr + unicode_tree() + url_tree()
+        elif i % 3 == 1:
+            tr = tr + url_tree()
+        for e in tr:
+            e.setdefault("mtime", 1_700_000_000)
+        specs.append({"tree": tr, "config": trees.SITE_CONFIG, "follow_url_links": True})
+    all_pages = pgsite.crawl_worlds(specs, max_pages=600)
     nlinks = 0
     bad = 0
+    nurl = 0
     for wi, pages in enumerate(all_pages):
         for p in pages:
             proto = p["proto"]
-            out = p["out"].encode("latin-1")
             if p["parent"] is None:
                 continue   # the root request itself
             nlinks += 1
+            nurl += 1 if re.match(r"/?URL:", p["selector"]) else 0
             chk.count((wi, proto, p["selector"]), nontrivial=True)
-            why = None
-            try:
-                v = V.validate(proto, out)
-                if v["kind"] != "success":
-                    why = "answered with an error reply"
-                elif p["type"] == "1":
-                    try:
-                        V.parse_gopher_menu(v["body"])
-                    except V.Malformed as e:
-                        why = "advertised as a menu but the reply is not a menu: %s" % e
-                elif p["type"] not in (None, "7", "1") and proto.startswith(("gopher", "sgopher")):
-                    pass
-            except V.Malformed as e:
-                why = "malformed reply: %s" % e
-            if p["exc"]:
-                why = "exception %s" % p["exc"]
+            why = judge_page(p)
             if why:
                 bad += 1
                 found = True
@@ -50,11 +128,75 @@ def run(tier):
                                "listing_selector": p["parent"], "link_selector_latin1": p["selector"], "advertised_type": p["type"],
                                "request_latin1": p["request"], "response_latin1": p["out"][:300], "log": p["log"][-3:],
                                "tree": specs[wi]["tree"]}, tag=f"dead-link:{proto}")
+
+    # ---- maintenance histories: list (cache files get written), reorganise the tree the way an administrator does (rename or
+    # move a directory or one of its ancestors, copy a subtree with its timestamps), let more than the cache lifetime pass,
+    # crawl again: every link of every listing must still resolve ----
+    base = [e for e in trees.rich_tree(rng, hostile=False) if not e["path"].startswith(("md", "mail.mbox"))]
+    base += [{"path": "proj", "kind": "dir"}, {"path": "proj/readme.txt", "data": "r\n"}, {"path": "proj/src", "kind": "dir"},
+             {"path": "proj/src/main.c", "data": "int main;\n"}, {"path": "proj/src/deep", "kind": "dir"},
+             {"path": "proj/src/deep/x y.txt", "data": "xy\n"}, {"path": "proj/docs", "kind": "dir"}, {"path": "proj/docs/guide.html", "data": "<html><title>G</title></html>\n"},
+             {"path": "lib", "kind": "dir"}, {"path": "lib/a.txt", "data": "a\n"}, {"path": "lib/inc", "kind": "dir"}, {"path": "lib/inc/h.h", "data": "h\n"},
+             {"path": "lib/inc/sys", "kind": "dir"}, {"path": "lib/inc/sys/t.h", "data": "t\n"}]
+    for e in base:
+        e["mtime"] = 1_600_000_000
+    LIFE = 180
+    # (only directories that no hand-written gophermap or link file points at: a link an administrator typed is his to keep alive)
+    scenarios = {
+        "rename-directory": [{"do": "rename", "src": "proj", "dst": "project-2"}],
+        "rename-ancestor": [{"do": "rename", "src": "lib", "dst": "library"}, {"do": "rename", "src": "proj/src", "dst": "proj/source"}],
+        "move-into-another": [{"do": "rename", "src": "proj/src", "dst": "lib/moved-src"}, {"do": "rename", "src": "lib/inc", "dst": "proj/inc"}],
+        "copy-with-timestamps-then-remove": [{"do": "copytree", "src": "proj", "dst": "proj-copy"}, {"do": "rename", "src": "proj", "dst": "attic/proj-old"},
+                                             {"do": "remove", "path": "attic/proj-old/readme.txt"}],
+        "swap-two-directories": [{"do": "rename", "src": "lib", "dst": "tmp-swap"}, {"do": "rename", "src": "proj", "dst": "lib"},
+                                 {"do": "rename", "src": "tmp-swap", "dst": "proj"}],
+        "nothing-changes": [],
+    }
+    if tier == "quick":
+        keep = ["rename-directory", "rename-ancestor", "move-into-another"] + [rng.choice(["copy-with-timestamps-then-remove", "swap-two-directories", "nothing-changes"])]
+        scenarios = {k: scenarios[k] for k in keep}
+    sjobs = []
+    for name, actions in scenarios.items():
+        for wait in ((LIFE * 5,) if tier == "quick" else (LIFE + 5, LIFE * 5, 86400 * 30)):
+            sjobs.append({"op": "crawl_stages", "tree": base, "config": dict(trees.SITE_CONFIG, **{"handlers.dir.DirHandler": {"cachetime": str(LIFE)}}),
+                          "protos": gen.PROTOCOLS if tier != "quick" else ["gopher", "gopherplus", "http", "wap", "gemini", "spartan"],
+                          "max_pages": 300, "_name": name, "_wait": wait,
+                          "stages": [{"name": "first visit", "crawl": True},
+                                     {"name": "second visit, after the caches of the first have expired (they are rewritten in place)", "crawl": True,
+                                      "actions": [{"do": "age", "seconds": LIFE * 2 + rng.randrange(0, 1000)}]},
+                                     {"name": "a minute later", "actions": [{"do": "age", "seconds": 60}]},
+                                     {"name": "after the reorganisation and the wait", "crawl": True,
+                                      "actions": actions + [{"do": "age", "seconds": wait}]}]})
+    sres = impl_run_parallel(sjobs, chunks=len(sjobs))
+    nstage_links = 0
+    for sj, r in zip(sjobs, sres):
+        if not r["ok"]:
+            raise RuntimeError(r["err"] + "\n" + r.get("tb", ""))
+        for st in r["res"]["stages"]:
+            for p in st["pages"] or []:
+                if p["parent"] is None:
+                    continue
+                nstage_links += 1
+                chk.count(("stage", sj["_name"], sj["_wait"], st["name"], p["proto"], p["selector"]), nontrivial=True)
+                why = judge_page(p)
+                if why:
+                    bad += 1
+                    found = True
+                    chk.violation({"what": "a local link advertised in a listing is not served: " + why, "protocol": p["proto"],
+                                   "history": "listings fetched twice, more than the cache lifetime apart; then %s; then %d s pass (cache lifetime %d s); then '%s' is listed again"
+                                              % (sj["_name"], sj["_wait"], LIFE, p["parent"]),
+                                   "maintenance_actions": sj["stages"][3]["actions"], "stage": st["name"],
+                                   "listing_selector": p["parent"], "link_selector_latin1": p["selector"], "advertised_type": p["type"],
+                                   "request_latin1": p["request"], "response_latin1": p["out"][:300], "log": p["log"][-3:], "tree": base},
+                                  tag=f"dead-link-after-maintenance:{sj['_name']}:{p['proto']}")
     chk.sample({"protocol": all_pages[0][5]["proto"], "followed_link": all_pages[0][5]["selector"],
                 "request_latin1": all_pages[0][5]["request"], "response_head": all_pages[0][5]["out"][:80]})
-    chk.coverage["oracle"] = {"trees": ntrees, "links_followed": nlinks, "dead_links": bad, "exhaustive_crawl_per_tree": True}
+    chk.coverage["oracle"] = {"trees": ntrees, "links_followed": nlinks, "url_links_followed": nurl, "dead_links": bad,
+                              "exhaustive_crawl_per_tree": True, "maintenance_histories": len(sjobs), "links_followed_after_maintenance": nstage_links}
     chk.coverage["rule"] = ("generated trees with hostile names (spaces, reserved URL characters, non-UTF-8 bytes, HTML metacharacters), "
-                            "mailboxes, Maildirs, gophermaps, UMN link files; every local link reachable from / is followed in the same "
+                            "valid UTF-8 names with invisible/format/combining/astral characters, URL: items of gophermaps and link files (local type-h links), "
+                            "mailboxes, Maildirs, gophermaps, UMN link files; histories in which directories are renamed, moved or copied between two "
+                            "visits and the cache lifetime passes; every local link reachable from / is followed in the same "
                             "protocol's request syntax, for all 9 protocol variants; each followed link is a non-trivial case")
     # ---- [agentH] correspondence K05 (request side of every protocol, urlparse, parse_qs) ----
     k_mism, k_err, k_det = run_k05(chk, tier)
